@@ -5,14 +5,15 @@ CONSTANTS
   MaxRxns = 3
   GridSeq <- G_Four
   StateModes <- M_Pat
-  Patterns <- P_One
+  Patterns <- P_Few
   Extents <- X_Zero
   Deltas <- D_Few
   Factors <- F_Few
   Shifts <- S_Few
-  PertKinds <- K_All
+  PertKinds <- K_Two
   NumSyss <- N_Lin
-  RrefFlags <- FL_Two
+  RrefFlags <- FL_Plain
+  Options <- O_Default
   MaxEvals = 1
 INVARIANT TypeOK
 INVARIANT BackwardConstructionIsEquilibrium
